@@ -128,7 +128,11 @@ func (ex *exec) syncSolverTo(n int) {
 }
 
 func (ex *exec) checkSat() SatResult {
+	t0 := time.Now()
 	r := ex.solver.Check()
+	if d := time.Since(t0); d > 500*time.Millisecond && os.Getenv("GOSYM_SLOW") != "" {
+		fmt.Fprintf(os.Stderr, "slow query %.1fs -> %v; last assert: %s\n", d.Seconds(), r, ex.solver.lastAssert)
+	}
 	if r == Unknown {
 		ex.inconclusive("solver-unknown: " + lastSolverError)
 	}
